@@ -21,6 +21,12 @@ def parse_summary(I, func, self_val, args, kwargs, node, fr):
         if m is not None:
             from .consumerflow import absorb_consumed, list_sizes
             before = list_sizes(cons)
+            feed = I.run.user.get("feed")
+            if callable(feed):
+                # a rule's own listing: concrete Instruction objects, fed in order through whatever the program wired
+                for inst in feed(I):
+                    I.call_func(m, [inst], {}, cons, node, fr)
+                return NONE
             for k in range(1, I.run.user.get("n_insts", 1) + 1):
                 inst = Unknown(f"inst{k}", {"truthy": True, "not_none": True,
                                             "expr": f"inst{k}"})
@@ -35,6 +41,32 @@ def valid_addr_summary(I, func, self_val, args, kwargs, node, fr):
     I.run.event("valid_addr_observe", inst=inst)
     return Unknown(f"tagged({I.expr_of(inst)})", {"truthy": True, "not_none": True,
                                                    "expr": f"tagged({I.expr_of(inst)})"})
+
+
+def wrapped_observer(o: Value) -> Value:
+    """the observer object behind an installed instruction hook: the object itself, the receiver of a bound method
+    (`obs.observe_instruction`), or the one object a lambda's body refers to (through a default argument, bound when the
+    lambda was written, or a free variable, looked up now - as a call would)"""
+    import ast as _ast
+    from .values import FuncV, LambdaV
+    if isinstance(o, FuncV) and isinstance(o.self_val, Obj):
+        return o.self_val
+    if isinstance(o, LambdaV):
+        params = {x.arg for x in o.node.args.posonlyargs + o.node.args.args + o.node.args.kwonlyargs}
+        objs = []
+        for n in _ast.walk(o.node.body):
+            if isinstance(n, _ast.Name):
+                v = o.defaults.get(n.id) if n.id in o.defaults else (None if n.id in params else o.frame.locals.get(n.id))
+                if isinstance(v, Obj) and all(v is not x for x in objs):
+                    objs.append(v)
+        if len(objs) == 1:
+            return objs[0]
+    return o
+
+
+def observer_name(o: Value) -> str:
+    w = wrapped_observer(o)
+    return w.cls.name if isinstance(w, Obj) else repr(w)
 
 
 class MatchScenario:
@@ -103,7 +135,7 @@ THOROUGH_CONFIGS: List[Dict[str, Any]] = [
 def match_scenarios(I: Interp, file_types=("assembly", "binary"), return_modes=("bool", "matched_addrs_list",
                     "all_instructions_string"), search_modes=("first_find", "all_finds"), only_addrs=(False, True),
                     configs=({}, {"valid_addr_range": {"min": Sym("RANGE_MIN"), "max": Sym("RANGE_MAX")}}),
-                    repeat: int = 1) -> List[MatchScenario]:
+                    repeat: int = 1, feed=None) -> List[MatchScenario]:
     """MasterOfPuppets(match_config).perform_matching() for every combination; `repeat` > 1 calls
     perform_matching several times on the same object (results of the last call are returned)."""
     p = I.p
@@ -119,6 +151,8 @@ def match_scenarios(I: Interp, file_types=("assembly", "binary"), return_modes=(
 
         def thunk(I: Interp, ft=ft, rm=rm, sm=sm, oa=oa, cf=cf) -> Value:
             I.run.user["rule_doc"] = {"config": cf, "pattern": ["nop"]}
+            if feed is not None:
+                I.run.user["feed"] = feed
             mc = I.construct(mc_cls, [], {
                 "pattern_pathstr": Str((Hole("PATTERN_PATH", "path", True),)),
                 "input_file": Str((Hole("INPUT_FILE", "path", True),)),
@@ -165,7 +199,7 @@ def op_facts(I: Interp, events: List[Any]) -> Dict[str, Any]:
     c = facts.pop("consumer", None)
     if c is not None:
         obs = c.fields.get("instruction_observers")
-        facts["observers"] = [o.cls.name if isinstance(o, Obj) else repr(o) for o in obs.items] if isinstance(obs, ListV) else [repr(obs)]
+        facts["observers"] = [observer_name(o) for o in obs.items] if isinstance(obs, ListV) else [repr(obs)]
     return facts
 
 
